@@ -437,8 +437,53 @@ pub fn run(rep: &'static Report) {
             }
         }
     });
+    // unusable pyproject.toml files whose offending line is long and holds one multi-byte character at
+    // every offset (error reporting must not slice inside it): syntax error, wrong type, bad table
+    let mut cfg_cases: Vec<(usize, usize, usize)> = Vec::new(); // (form, offset, char)
+    for form in 0..4 {
+        for off in 0..=100usize {
+            for ch in 0..3 {
+                cfg_cases.push((form, off, ch));
+            }
+        }
+    }
+    let ccount = AtomicU64::new(0);
+    par_batches(&cfg_cases, 32, |_i, (form, off, ch)| {
+        install_panic_hook();
+        ccount.fetch_add(1, Ordering::Relaxed);
+        let c = ["é", "€", "🙂"][*ch];
+        let filler: String = "x".repeat(*off) + c + &"y".repeat(100usize.saturating_sub(*off));
+        let toml = match form {
+            0 => format!("[tool.pytest-language-server]\ndescription = {}\n", filler),
+            1 => format!("[tool.pytest-language-server]\nexclude = \"{}\"\n", filler),
+            2 => format!("[tool.pytest-language-server\n# {}\nexclude = []\n", filler),
+            _ => format!("[project]\nname = \"{}\"\n[tool.pytest-language-server]\ndisabled_diagnostics = [{}]\n", filler, filler),
+        };
+        let sc = Scratch::new("c11cfg");
+        let ws = sc.path().join("ws");
+        write_file(&ws, "conftest.py", "import pytest\n\n@pytest.fixture\ndef other():\n    return 1\n");
+        write_file(&ws, "pyproject.toml", &toml);
+        let r = std::panic::catch_unwind(|| {
+            let cfg = Config::load(&ws);
+            let db = FixtureDatabase::new();
+            db.scan_workspace_with_excludes(&ws, &cfg.exclude);
+            db.definitions.contains_key("other")
+        });
+        let bad = match r {
+            Err(_) => Some(format!("panic at {}", last_panic())),
+            Ok(false) => Some("the project's own conftest was not indexed".to_string()),
+            Ok(true) => None,
+        };
+        if let Some(p) = bad {
+            let fp = format!("unusable pyproject.toml takes the scan down: {}", p);
+            if !rep.count_if_seen(&fp) {
+                rep.violation(&fp, &format!("form {} with {:?} at offset {}", form, c, off), || json!({"pyproject": toml}));
+            }
+        }
+    });
+    rep.set("unusable_config_cases", ccount.load(Ordering::Relaxed));
     let c = calls.load(Ordering::Relaxed);
-    rep.set("evaluations", c + mcount.load(Ordering::Relaxed));
+    rep.set("evaluations", c + mcount.load(Ordering::Relaxed) + ccount.load(Ordering::Relaxed));
     rep.set("documents", docs.load(Ordering::Relaxed) * 2);
     rep.set("handler_and_analysis_calls", c);
     rep.set("metadata_cases", mcount.load(Ordering::Relaxed));
@@ -451,7 +496,7 @@ pub fn run(rep: &'static Report) {
     rep.set("max_string_length", k as u64);
     rep.set("exhaustive", true);
     rep.sample(json!({"template": temps[0], "slot": 3, "string": strs[20], "document": fill(temps[0], 3, &strs[20])}));
-    rep.set("rule", "every string of Σ^≤k (Σ = a, é, 🙂, NBSP, U+3000, space, tab, LF, CRLF, ':', '(', ')', '\"', '#', '\\') inserted at every slot of every template (9 quick / 12 thorough templates: docstrings, annotated and multi-line signatures, usefixtures/pytestmark/parametrize strings, class-nested code, bodies with undeclared uses, async/override decorators…), each document analysed (a) on its own and (b) after the valid base version (so positions recorded earlier are stale), then after didClose; after each analysis all request kinds (definition, implementation, hover, references, completion, call hierarchy, documentSymbol, workspace/symbol, codeLens, inlayHint incl. reversed range, codeAction incl. bogus ranges, CLI/diagnostic queries) over a position grid (every column up to len+2 on the mutated line and its neighbours, 4 columns elsewhere, lines beyond the end, u32 extremes), every call under catch_unwind; every distinct panic site is replayed against the real binary; every string of Σ'^≤k as distribution-directory / .pth name and as .pth / entry_points.txt / direct_url.json / pyproject.toml contents with a real scan; two very large documents (sweep)");
+    rep.set("rule", "every string of Σ^≤k (Σ = a, é, 🙂, NBSP, U+3000, space, tab, LF, CRLF, ':', '(', ')', '\"', '#', '\\') inserted at every slot of every template (9 quick / 12 thorough templates: docstrings, annotated and multi-line signatures, usefixtures/pytestmark/parametrize strings, class-nested code, bodies with undeclared uses, async/override decorators…), each document analysed (a) on its own and (b) after the valid base version (so positions recorded earlier are stale), then after didClose; after each analysis all request kinds (definition, implementation, hover, references, completion, call hierarchy, documentSymbol, workspace/symbol, codeLens, inlayHint incl. reversed range, codeAction incl. bogus ranges, CLI/diagnostic queries) over a position grid (every column up to len+2 on the mutated line and its neighbours, 4 columns elsewhere, lines beyond the end, u32 extremes), every call under catch_unwind; every distinct panic site is replayed against the real binary; every string of Σ'^≤k as distribution-directory / .pth name and as .pth / entry_points.txt / direct_url.json / pyproject.toml contents with a real scan; 1212 unusable pyproject.toml files (4 forms × one multi-byte character of 2, 3 or 4 bytes at every offset 0..100 of the offending line); two very large documents (sweep)");
     rep.assume("the in-process sweep finds panics; wedging of the real server is established only for the distinct panic sites replayed against the binary");
 }
 
